@@ -27,6 +27,7 @@ ASSUMPTIONS = ['IFS with an odd number of arguments and text conditions are not 
 
 COND_CELLS = ['A1', 'A2', 'A3', 'A4']
 ERR_CELL = 'E1'       # holds #N/A
+ERR_CELLS = {'E1': '#N/A', 'E11': '#DIV/0!', 'E12': '#VALUE!', 'E13': '#REF!', 'E14': '#NAME?', 'E15': '#NUM!', 'E16': '#NULL!'}   # every Excel error value
 TEXT_CELL = 'E2'      # holds "hello"
 RAISING_CELL = 'E3'   # holds =1/0: reading the cell fails
 HASH_TEXT_CELL = 'E4' # holds "#FF0000": a text, not one of Excel's error values
@@ -48,7 +49,7 @@ FAIL_CALLS = [['call', 'YEAR', [['ref', TEXT_CELL]]],
 
 
 def is_fail(node):
-    return (node[0] == 'bin' and node[1] == '/' and node[3] == ['num', '0']) or node in (['ref', ERR_CELL], ['ref', RAISING_CELL]) or node in FAIL_CALLS
+    return (node[0] == 'bin' and node[1] == '/' and node[3] == ['num', '0']) or node in [['ref', c] for c in ERR_CELLS] + [['ref', RAISING_CELL]] or node in FAIL_CALLS
 
 
 def nest_depth(ast):
@@ -168,7 +169,7 @@ def untaken_differs(ast, envf, value, seen):
     return False
 
 
-BASE_CELLS = {ERR_CELL: '#N/A', TEXT_CELL: 'hello', RAISING_CELL: '=1/0', HASH_TEXT_CELL: '#FF0000'}
+BASE_CELLS = {**ERR_CELLS, TEXT_CELL: 'hello', RAISING_CELL: '=1/0', HASH_TEXT_CELL: '#FF0000'}
 
 
 def run_spec(spec, rec=None):
@@ -265,7 +266,7 @@ def strategy():
                      st.tuples(st.sampled_from(['>', '=', '<>', '>=']), ref, st.sampled_from(['0', '1'])).map(
                          lambda t: ['bin', t[0], t[1], ['num', t[2]]]),
                      st.sampled_from([['num', '0'], ['num', '1'], ['num', '2'], ['bool', True], ['bool', False]]))
-    fail = st.sampled_from([['bin', '/', ['num', '1'], ['num', '0']], ['ref', ERR_CELL], ['ref', RAISING_CELL]] * 2 + FAIL_CALLS)
+    fail = st.sampled_from([['bin', '/', ['num', '1'], ['num', '0']], ['ref', ERR_CELL], ['ref', RAISING_CELL]] * 2 + [['ref', c] for c in ERR_CELLS] + FAIL_CALLS)
     # a condition whose evaluation fails (it must not be touched once an earlier condition has decided)
     failcond = st.sampled_from([['bin', '>', ['bin', '/', ['num', '10'], ['num', '0']], ['num', '1']], ['bin', '>', ['ref', RAISING_CELL], ['num', '0']],
                                 ['bin', '=', ['call', 'YEAR', [['ref', TEXT_CELL]]], ['num', '1']]])
